@@ -108,6 +108,10 @@ func setReattachOK(prog *ir.Program) {
 	}
 }
 
+// second fault of a two-fault run (set around execVM by the two-fault phase; the worker is single-threaded)
+var kind2 int
+var at2 int64
+
 func execVM(proto *lua.FunctionProto, ov optVariant, kind int, at int64, maxSteps int64, withCtx bool) *runOut {
 	var reattach int64
 	if kind == hostapi.VCancel && at%2 == 0 && reattachOK {
@@ -117,6 +121,7 @@ func execVM(proto *lua.FunctionProto, ov optVariant, kind int, at int64, maxStep
 	}
 	h := hostapi.NewHost(hostapi.Options{LuaOptions: ov.o, Kind: kind, At: at, MaxSteps: maxSteps, WithContext: withCtx, ReattachAtHostCall: reattach})
 	h.Entry, h.EntryJunk = ov.entry, ov.junk
+	h.Kind2, h.At2 = kind2, at2
 	if ov.entry == 6 {
 		h.Source = curSrc
 	}
@@ -358,6 +363,195 @@ func (e *Engine) Run(t *core.Tape, cfg *core.Config, st *core.Stats) *core.Viola
 		return nil
 	}
 
+	// ---- two faults in sequence: the second one arrives while, or after, the first one is being handled ----
+	pairKinds := [][2]int{
+		{hostapi.VRaise, hostapi.VRaise},
+		{hostapi.VRaise, hostapi.VRaiseError},
+		{hostapi.VErrorTable, hostapi.VRaise},
+		{hostapi.VRaise, hostapi.VCancel},
+		{hostapi.VErrorNumber, hostapi.VErrorTable},
+		{hostapi.VGoPanicString, hostapi.VRaise},
+		{hostapi.VRaiseError, hostapi.VGoPanicError},
+	}
+	type acc2T struct {
+		set map[uint64]struct{}
+		n   int64
+	}
+	acc2 := map[[2]int]*acc2T{}
+	capRuns := int64(12000)
+	if cfg.Thorough {
+		capRuns = 50000
+	}
+	getAcc2 := func(k1, k2 int) *acc2T {
+		key := [2]int{k1, k2}
+		if a, ok := acc2[key]; ok {
+			return a
+		}
+		acc2[key] = nil
+		mk1, mk2 := hostapi.ModelKind(k1), hostapi.ModelKind(k2)
+		a := &acc2T{set: map[uint64]struct{}{free.TraceHash: {}}}
+		lim1 := free.Steps
+		if model.IsHostKind(mk1) {
+			lim1 = free.HostSteps
+		}
+		orders := []bool{false}
+		if prog.MultiAssign {
+			orders = []bool{false, true}
+		}
+		for _, rtl := range orders {
+			for m1 := int64(1); m1 <= lim1; m1++ {
+				r1 := model.Run(prog, model.Options{FaultKind: mk1, FaultAt: m1, StoreRTL: rtl, MaxSteps: 400000})
+				if r1.Runaway {
+					return nil
+				}
+				a.set[r1.TraceHash] = struct{}{} // the second fault point may lie past the end of the run
+				if !r1.Fired {
+					continue
+				}
+				lim2, from := r1.Steps, int64(1)
+				if model.IsHostKind(mk2) {
+					lim2 = r1.HostSteps
+					if model.IsHostKind(mk1) {
+						from = m1 + 1
+					}
+				} else if !model.IsHostKind(mk1) {
+					from = m1 + 1
+				}
+				for m2 := from; m2 <= lim2; m2++ {
+					r2 := model.Run(prog, model.Options{FaultKind: mk1, FaultAt: m1, Fault2Kind: mk2, Fault2At: m2, StoreRTL: rtl, MaxSteps: 400000})
+					if r2.Runaway {
+						return nil
+					}
+					a.set[r2.TraceHash] = struct{}{}
+					a.n++
+					if a.n > capRuns {
+						st.Probe("two_fault_set_too_large")
+						return nil
+					}
+				}
+			}
+		}
+		acc2[key] = a
+		return a
+	}
+	check2 := func(k1 int, a1 int64, k2 int, a2 int64) *core.Violation {
+		a := getAcc2(k1, k2)
+		if a == nil {
+			return nil
+		}
+		kind2, at2 = k2, a2
+		r := execVM(proto, ov, k1, a1, maxSteps, k2 == hostapi.VCancel)
+		kind2, at2 = 0, 0
+		st.Evals++
+		st.Steps += r.h.Steps
+		if !r.h.Fired2 {
+			return nil
+		}
+		st.D(r.hash)
+		fired++
+		name := hostapi.VKindNames[k1] + "+" + hostapi.VKindNames[k2]
+		st.Fault("two:" + name)
+		where := fmt.Sprintf("two faults: %s=%d, then %s=%d (of S=%d steps, H=%d host calls)", hostapi.VKindNames[k1], a1, hostapi.VKindNames[k2], a2, S, H)
+		mk := func(class, format string, args ...interface{}) *core.Violation {
+			v := core.Violationf(class, "%s: %s\n%s", where, fmt.Sprintf(format, args...), desc())
+			v.Aux = []int64{int64(k1), a1, int64(k2), a2}
+			return v
+		}
+		if r.out.Escaped != "" {
+			return mk("escape", "a Go panic left the top-level PCall: %s", r.out.Escaped)
+		}
+		if r.h.Runaway {
+			st.Probe("long_fault_path_discarded")
+			return nil
+		}
+		if len(r.viol) > 0 {
+			return mk(violClass(r.viol[0]), "%s", r.viol[0])
+		}
+		if _, ok := a.set[r.hash]; !ok {
+			return mk("two-fault-trace-not-acceptable", "the trace after the two faults is none of the %d traces the reference model produces with these two aborts at any pair of micro-steps (%d model runs)\nimplementation trace:\n%sfault-free trace:\n%s",
+				len(a.set), a.n, fmtTrace(r.trace, r.out.TopError), fmtTrace(free.Trace, free.TopError))
+		}
+		if k2 == hostapi.VCancel {
+			if v := e.postCancel(r.h, where, desc); v != nil {
+				v.Aux = []int64{int64(k1), a1, int64(k2), a2}
+				return v
+			}
+		}
+		return nil
+	}
+	if len(cfg.Aux) >= 4 {
+		k1, k2 := int(cfg.Aux[0]), int(cfg.Aux[2])
+		if k1 <= 0 || k1 >= hostapi.VKinds || k2 <= 0 || k2 >= hostapi.VKinds || cfg.Aux[1] < 1 || cfg.Aux[3] < 1 {
+			return nil
+		}
+		st.Event("two faults %s at %d, %s at %d", hostapi.VKindNames[k1], cfg.Aux[1], hostapi.VKindNames[k2], cfg.Aux[3])
+		return check2(k1, cfg.Aux[1], k2, cfg.Aux[3])
+	}
+	twoFaults := func() *core.Violation {
+		// one program in three (quick tier) or in two: the phase costs about as much as the whole single-fault sweep
+		if every := uint64(3); (progHash>>24)%every != 0 && (!cfg.Thorough || (progHash>>24)%2 != 0) {
+			return nil
+		}
+		pk := pairKinds[progHash>>8%uint64(len(pairKinds))]
+		if getAcc2(pk[0], pk[1]) == nil {
+			return nil
+		}
+		st.Probe("two_fault_sweep_" + hostapi.VKindNames[pk[0]] + "+" + hostapi.VKindNames[pk[1]])
+		lim1 := S
+		if hostapi.IsHostKind(pk[0]) {
+			lim1 = H
+		}
+		budget := int64(1200)
+		if cfg.Thorough {
+			budget = 5000
+		}
+		// an even sample of first points; for each, an even sample of second points behind it
+		n1 := lim1
+		if n1 > 60 {
+			n1 = 60
+		}
+		if n1 == 0 {
+			return nil
+		}
+		per := budget / n1
+		if per < 4 {
+			per = 4
+		}
+		for i := int64(0); i < n1; i++ {
+			a1 := 1 + i*lim1/n1
+			kind2, at2 = 0, 0
+			r1 := execVM(proto, ov, pk[0], a1, maxSteps, false)
+			st.Evals++
+			st.Steps += r1.h.Steps
+			if !r1.h.Fired || r1.h.Runaway {
+				continue
+			}
+			lim2, from := r1.h.Steps, r1.h.FiredStep+1
+			if hostapi.IsHostKind(pk[1]) {
+				lim2, from = r1.h.HostCalls, 1
+				if hostapi.IsHostKind(pk[0]) {
+					from = a1 + 1
+				}
+			}
+			span := lim2 - from + 1
+			if span <= 0 {
+				continue
+			}
+			n2 := span
+			if n2 > per {
+				n2 = per
+			}
+			off := int64((progHash >> 16) % uint64(span/n2+1))
+			for j := int64(0); j < n2; j++ {
+				a2 := from + (j*span/n2+off)%span
+				if v := check2(pk[0], a1, pk[1], a2); v != nil {
+					return v
+				}
+			}
+		}
+		return nil
+	}
+
 	if len(cfg.Aux) >= 2 {
 		// replay / shrink of a single fault point
 		kind := int(cfg.Aux[0])
@@ -420,6 +614,9 @@ func (e *Engine) Run(t *core.Tape, cfg *core.Config, st *core.Stats) *core.Viola
 		if v := check(hostapi.VCancel, k); v != nil {
 			return single(v, hostapi.VCancel, k, posBefore)
 		}
+	}
+	if v := twoFaults(); v != nil {
+		return v
 	}
 	st.DistinctW(progHash, fired)
 	if st.WantSample() {
